@@ -174,9 +174,10 @@ MUTANTS = [
     M("c37", "cg", CG, "    new_event = dict(event)\n", "    new_event = event\n", OUT,
       "mutation of the caller's argument: the caller's event dict is relabelled in place; C18 has no side-effect clause and id_star / idc_star "
       "do not use the dict afterwards"),
-    M("c38", "cg", CG, "    for node in graph.topological_sort():\n", "    for node in graph.nodes():\n", OUT,
-      "wrong order: insertion order instead of parents-first: a child is tested before its parents have been merged: fewer merges (each still "
-      "passes the Lemma-24 test on observed / intervened parent values)"),
+    M("c38", "cg", CG, "    for node in graph.topological_sort():\n", "    for node in graph.nodes():\n", ["C07"],
+      "wrong order (= seeded/C07c, found independently): insertion order instead of parents-first: a child is tested before its parents have been merged: "
+      "fewer merges, each still legitimate, so C18 holds (outside C18); ID* then finds two unmerged copies of one variable in a district and line 9 "
+      "prints them as one (A -> B -> C, A <-> B, B <-> C stored downstream-first, event {C: c, B_c: b})", run=["C18", "C07"]),
     M("c39", "cg", CG, "            if lemma_24_holds(cf_graph, new_event, node, node_at_interventions):\n", "            if lemma_24_holds(cf_graph, event, node, node_at_interventions):\n", OUT,
       "stale variable: Lemma 24 is tested with the ORIGINAL event; its keys for eliminated nodes are never looked up, the kept nodes that only the "
       "relabelled event mentions count as unobserved: fewer merges"),
